@@ -1213,6 +1213,12 @@ func (o *oracles) onResult(c *Client, r dragonboat.RequestResult) {}
 func (o *oracles) onWriteCompleted(c *Client, op *histOp, res sm.Result) {
 	s := o.s
 	o.completedOps++
+	if QuietWrite(op.wid) {
+		if res.Value != 0 || len(res.Data) != 0 {
+			s.ctx.Violate("C12", "foreign-result", "write %d (answered with the empty result by the state machine) completed with the result {%d %x}", op.wid, res.Value, res.Data)
+		}
+		return
+	}
 	if res.Value != op.wid {
 		s.ctx.Violate("C12", "foreign-result", "write %d completed with the result of write %d", op.wid, res.Value)
 		return
